@@ -33,6 +33,8 @@ func checkC03(c *core.Ctx) {
 		{"analysis", "buildTemporalDepGraph", []string{"ast.Atom", "ast.NegAtom", "ast.TemporalLiteral"}, "the temporal recursion check sees the same dependencies"},
 	})
 	c03StrataOrder(c)
+	c.Rule("ORDABS.classification-before-stratification", "Analyzer.Analyze, evaluated on the same clauses in different orders, classifies a predicate that has a rule as intensional only, wherever its facts stand in the source: stratification drops the edges into extensional predicates, so a misclassified predicate hides a negative cycle (obligation shared with C05)", 1)
+	c.Under("ORDABS.classification-before-stratification", []string{rC05Class}, func() { c05Classification(c) })
 }
 
 func predSym(name string, arity int64) *ordabs.Rec {
